@@ -1,0 +1,34 @@
+//go:build verif
+
+package smf
+
+// Contracts for the deductive verifier in /verif (govc). Comment-only.
+//
+// Playback (C12), the fragments within reach: the collector closure of MultiPlay, the order handed to sort.Sort,
+// and the pacing step. MultiPlay itself (map of ports, callback iteration of TracksReader.Do, time.Sleep) is not.
+
+// the collector: an event is queued iff it is playable (never a meta event) and a port is mapped; queued events keep
+// their bytes, their time and their track number, and nothing already queued is touched
+//@ func (*TracksReader).MultiPlay$1
+//@ modifies pl
+//@ ensures [P:C12] !((len(te.Event.Message) == 0 || te.Event.Message[0] != 0xFF) && smfTypeOf(len(te.Event.Message), te.Event.Message[0], te.Event.Message[1]) > midi.UnknownMsg) ==> pl == old(pl)
+//@ ensures [P:C12] len(pl) == old(len(pl)) || len(pl) == old(len(pl)) + 1
+//@ ensures [P:C12] forall i int :: 0 <= i && i < old(len(pl)) ==> pl[i] == old(pl[i])
+//@ ensures [P:C12] len(pl) == old(len(pl)) + 1 ==> (pl[len(pl)-1].absTime == te.AbsMicroSeconds && pl[len(pl)-1].data == te.Event.Message && pl[len(pl)-1].trackNo == te.TrackNo)
+// the port: the one mapped to the event's track, else the default port (key -1); without either the event is skipped
+//@ ensures [P:C12] len(pl) == old(len(pl)) + 1 ==> pl[len(pl)-1].out == (maphas(trackouts, te.TrackNo) ? mapget(trackouts, te.TrackNo) : mapget(trackouts, -1))
+//@ ensures [P:C12] (len(pl) == old(len(pl)) + 1) == (((len(te.Event.Message) == 0 || te.Event.Message[0] != 0xFF) && smfTypeOf(len(te.Event.Message), te.Event.Message[0], te.Event.Message[1]) > midi.UnknownMsg) && (maphas(trackouts, te.TrackNo) || maphas(trackouts, -1)))
+
+// events are ordered by their time only (strict): equal times are not ordered by this relation
+//@ func (player).Less
+//@ requires 0 <= a && a < len(p) && 0 <= b && b < len(p)
+//@ ensures [P:C12] result == (p[a].absTime < p[b].absTime)
+
+// pacing: before an event is sent the player has slept for the whole gap since the previous event; the event goes to
+// its own port, once, with its own bytes
+//@ func (*TracksReader).play
+//@ requires p.out != nil && p.absTime >= 0 && p.absTime < 9223372036854775
+//@ modifies slept, p.out.osent, p.out.olast
+//@ ensures [P:C12] result == 1000 * p.absTime
+//@ ensures [P:C12] slept >= old(slept) + int(result - last)
+//@ ensures [P:C12] p.out.osent == old(p.out.osent) + 1 && p.out.olast == p.data
